@@ -445,9 +445,22 @@ def range_index_to_elements(loop: ast.stmt, env_lens=None) -> Optional[ast.For]:
         return None
     dumps = {ast.dump(n.value) for n in subs}
     if len(dumps) != 1:
-        return None
+        # several sequences are indexed by i: the one whose length bounds the loop is the one iterated, the others keep their [i]
+        bound = a[0] if len(a) == 1 else a[1] if len(a) == 2 else None
+        want = None
+        if isinstance(bound, ast.Call) and isinstance(bound.func, ast.Name) and bound.func.id == "len" and len(bound.args) == 1:
+            want = ast.dump(bound.args[0])
+        elif isinstance(bound, ast.Name) and env_lens and bound.id in env_lens:
+            want = env_lens[bound.id]
+        subs = [n for n in subs if ast.dump(n.value) == want]
+        if want is None or not subs:
+            return None
     xs = subs[0].value
     d = ast.dump(xs)
+    if env_lens:
+        # `n = len(xs)` in front of the loop: range(n) is range(len(xs))
+        a = [ast.Call(func=ast.Name(id="len", ctx=ast.Load()), args=[copy.deepcopy(xs)], keywords=[])
+             if isinstance(x, ast.Name) and env_lens.get(x.id) == d else x for x in a]
     root = xs
     while isinstance(root, ast.Attribute):
         root = root.value
@@ -483,6 +496,41 @@ def range_index_to_elements(loop: ast.stmt, env_lens=None) -> Optional[ast.For]:
                 return ast.copy_location(ast.Name(id=elem, ctx=ast.Load()), n)
             return self.generic_visit(n)
     body = [Repl().visit(copy.deepcopy(b)) for b in loop.body]
+    # `x = xs[i]` as a statement of the body has become `x = <element>`: fine. An inner loop over the elements in front of i,
+    # `for j in range(i): ... xs[j] ...`, is the loop over enumerate(xs[:i])
+    class Inner(ast.NodeTransformer):
+        def visit_For(self, n):
+            self.generic_visit(n)
+            if not (not n.orelse and isinstance(n.target, ast.Name) and isinstance(n.iter, ast.Call) and isinstance(n.iter.func, ast.Name)
+                    and n.iter.func.id == "range" and not n.iter.keywords):
+                return n
+            ra = n.iter.args
+            upper = ra[0] if len(ra) == 1 else ra[1] if len(ra) == 2 and isinstance(ra[0], ast.Constant) and ra[0].value == 0 else None
+            if not (isinstance(upper, ast.Name) and upper.id == i):
+                return n
+            j = n.target.id
+            if any(isinstance(y, ast.Name) and y.id == j and isinstance(y.ctx, ast.Store) for b0 in n.body for y in ast.walk(b0)):
+                return n
+            ej = "__sa_elem_" + j
+            hit = [False]
+
+            class R2(ast.NodeTransformer):
+                def visit_Subscript(self, m):
+                    if isinstance(m.slice, ast.Name) and m.slice.id == j and isinstance(m.ctx, ast.Load) and ast.dump(m.value) == d:
+                        hit[0] = True
+                        return ast.copy_location(ast.Name(id=ej, ctx=ast.Load()), m)
+                    return self.generic_visit(m)
+            nb = [R2().visit(b0) for b0 in n.body]
+            if not hit[0]:
+                return n
+            seq = ast.Subscript(value=copy.deepcopy(xs), slice=ast.Slice(lower=None, upper=ast.Name(id=i, ctx=ast.Load()), step=None), ctx=ast.Load())
+            new_in = ast.For(target=ast.Tuple(elts=[ast.Name(id=j, ctx=ast.Store()), ast.Name(id=ej, ctx=ast.Store())], ctx=ast.Store()),
+                             iter=ast.Call(func=ast.Name(id="enumerate", ctx=ast.Load()), args=[seq], keywords=[]), body=nb, orelse=[],
+                             type_comment=None)
+            ast.copy_location(new_in, n)
+            ast.fix_missing_locations(new_in)
+            return new_in
+    body = [Inner().visit(b) for b in body]
     uses_i = any(isinstance(n, ast.Name) and n.id == i for b in body for n in ast.walk(b))
     if kind == "down":
         if uses_i:
@@ -583,6 +631,35 @@ def _first_match(init: ast.stmt, loop: ast.stmt) -> Optional[ast.Assign]:
     gen = ast.GeneratorExp(elt=st.value, generators=[ast.comprehension(target=loop.target, iter=loop.iter, ifs=[first.test], is_async=0)])
     new = ast.Assign(targets=[ast.Name(id=X, ctx=ast.Store())],
                      value=ast.Call(func=ast.Name(id="next", ctx=ast.Load()), args=[gen, init.value], keywords=[]))
+    ast.copy_location(new, loop)
+    ast.fix_missing_locations(new)
+    return new
+
+
+def _first_match_list(init: ast.stmt, loop: ast.stmt) -> Optional[ast.Assign]:
+    """acc = []; for x in XS: if C: acc.append(E); break      ->      acc = list(islice((E for x in XS if C), 1))
+    (the list of the first match, or the empty list; XS is read no further than the first match)"""
+    acc = _empty_acc(init)
+    if acc is None or acc[1] != "list":
+        return None
+    X = acc[0]
+    if not (isinstance(loop, ast.For) and not loop.orelse and len(loop.body) == 1):
+        return None
+    first = loop.body[0]
+    if not (isinstance(first, ast.If) and not first.orelse and len(first.body) == 2 and isinstance(first.body[1], ast.Break)):
+        return None
+    st = first.body[0]
+    if not (isinstance(st, ast.Expr) and isinstance(st.value, ast.Call) and isinstance(st.value.func, ast.Attribute)
+            and isinstance(st.value.func.value, ast.Name) and st.value.func.value.id == X and st.value.func.attr == "append"
+            and len(st.value.args) == 1 and not st.value.keywords and not isinstance(st.value.args[0], ast.Starred)):
+        return None
+    if _mentions(loop, X) != 1:
+        return None
+    gen = ast.GeneratorExp(elt=st.value.args[0], generators=[ast.comprehension(target=loop.target, iter=loop.iter, ifs=[first.test], is_async=0)])
+    new = ast.Assign(targets=[ast.Name(id=X, ctx=ast.Store())],
+                     value=ast.Call(func=ast.Name(id="list", ctx=ast.Load()),
+                                    args=[ast.Call(func=ast.Name(id="__sa_islice__", ctx=ast.Load()),
+                                                   args=[gen, ast.Constant(value=1)], keywords=[])], keywords=[]))
     ast.copy_location(new, loop)
     ast.fix_missing_locations(new)
     return new
@@ -778,16 +855,120 @@ def _match_to_if(m: ast.Match) -> Optional[ast.stmt]:
     return new
 
 
+def _split_fused_accumulators(stmts: List[ast.stmt], list_names: set) -> List[ast.stmt]:
+    """a = []; b = []; for t in xs: a.append(E1); b.append(E2)   ==>   a = []; for t in xs: a.append(E1); b = []; for t in xs: b.append(E2)
+    when xs is a parameter declared as a list (iterating it twice is the same as once) and E1 / E2 mention neither accumulator:
+    the two lists a fused loop fills are the two comprehensions it was fused from."""
+    out: List[ast.stmt] = []
+    i = 0
+    while i < len(stmts):
+        accs = []
+        j = i
+        while j < len(stmts) and _empty_acc(stmts[j]) is not None and _empty_acc(stmts[j])[1] == "list":
+            accs.append(_empty_acc(stmts[j])[0])
+            j += 1
+        loop = stmts[j] if j < len(stmts) else None
+        ok = len(accs) >= 2 and len(set(accs)) == len(accs) and isinstance(loop, ast.For) and not loop.orelse and \
+            isinstance(loop.iter, ast.Name) and loop.iter.id in list_names and len(loop.body) == len(accs)
+        parts = {}
+        if ok:
+            for b in loop.body:
+                if isinstance(b, ast.Expr) and isinstance(b.value, ast.Call) and isinstance(b.value.func, ast.Attribute) and \
+                        isinstance(b.value.func.value, ast.Name) and b.value.func.value.id in accs and b.value.func.attr == "append" and \
+                        len(b.value.args) == 1 and not b.value.keywords and not isinstance(b.value.args[0], ast.Starred) and \
+                        b.value.func.value.id not in parts and not any(_mentions(b.value.args[0], a) for a in accs):
+                    parts[b.value.func.value.id] = b
+                else:
+                    ok = False
+                    break
+        if ok and len(parts) == len(accs):
+            for k, name in enumerate(accs):
+                out.append(stmts[i + k])
+                lp = ast.For(target=copy.deepcopy(loop.target), iter=copy.deepcopy(loop.iter), body=[parts[name]], orelse=[])
+                ast.copy_location(lp, loop)
+                ast.fix_missing_locations(lp)
+                out.append(lp)
+            i = j + 1
+            continue
+        out.append(stmts[i])
+        i += 1
+    return out
+
+
+def _expand_local_partials(fn: ast.AST) -> None:
+    """g = functools.partial(F, a, b, k=c) ... g(x, m=y)      ==>      F(a, b, x, k=c, m=y)
+    for a local g that is bound once and only ever called, with partial arguments that are plain access paths or constants whose
+    roots are not re-bound in the function (so evaluating them at the call instead of at the binding reads the same values)."""
+    def own_nodes(n):
+        for c in ast.iter_child_nodes(n):
+            if isinstance(c, (ast.FunctionDef, ast.AsyncFunctionDef, ast.ClassDef, ast.Lambda)):
+                continue
+            yield c
+            yield from own_nodes(c)
+    nodes = list(own_nodes(fn))
+    stores = {}
+    for n in nodes:
+        if isinstance(n, ast.Name) and isinstance(n.ctx, ast.Store):
+            stores[n.id] = stores.get(n.id, 0) + 1
+
+    def pure(e):
+        while isinstance(e, ast.Attribute):
+            e = e.value
+        return isinstance(e, ast.Constant) or (isinstance(e, ast.Name) and stores.get(e.id, 0) <= 1)
+    cands = {}
+    for n in nodes:
+        if isinstance(n, ast.Assign) and len(n.targets) == 1 and isinstance(n.targets[0], ast.Name) and isinstance(n.value, ast.Call) \
+                and ast.unparse(n.value.func) in ("partial", "functools.partial") and n.value.args \
+                and isinstance(n.value.args[0], (ast.Name, ast.Attribute)) and stores.get(n.targets[0].id) == 1 \
+                and not any(isinstance(a, ast.Starred) for a in n.value.args) and not any(k.arg is None for k in n.value.keywords) \
+                and all(pure(a) for a in n.value.args) and all(pure(k.value) for k in n.value.keywords):
+            cands[n.targets[0].id] = n
+    if not cands:
+        return
+    # nested functions / lambdas that mention the name keep the partial object alive in another way: leave those alone
+    for n in ast.walk(fn):
+        if isinstance(n, (ast.FunctionDef, ast.AsyncFunctionDef, ast.Lambda)) and n is not fn:
+            for y in ast.walk(n):
+                if isinstance(y, ast.Name) and y.id in cands:
+                    cands.pop(y.id, None)
+    called = {}
+    for n in nodes:
+        if isinstance(n, ast.Call) and isinstance(n.func, ast.Name) and n.func.id in cands:
+            called.setdefault(n.func.id, []).append(n)
+    for name, assign in list(cands.items()):
+        loads = [n for n in nodes if isinstance(n, ast.Name) and n.id == name and isinstance(n.ctx, ast.Load)]
+        calls = called.get(name, [])
+        if len(loads) != len(calls) or not calls or any(isinstance(a, ast.Starred) for c in calls for a in c.args) or \
+                any(k.arg is None for c in calls for k in c.keywords):
+            continue
+        part = assign.value
+        for c in calls:
+            given = {k.arg for k in c.keywords}
+            c.func = copy.deepcopy(part.args[0])
+            c.args = [copy.deepcopy(a) for a in part.args[1:]] + list(c.args)
+            c.keywords = [copy.deepcopy(k) for k in part.keywords if k.arg not in given] + list(c.keywords)
+        # the binding itself becomes a no-op
+        assign.value = ast.Constant(value=None)
+        assign.targets = [ast.Name(id="__sa_unused_partial__", ctx=ast.Store())]
+    ast.fix_missing_locations(fn)
+
+
 class _Desugar(ast.NodeTransformer):
     def visit_FunctionDef(self, node):
         saved = getattr(self, "_params", set())
         a = node.args
         self._params = {x.arg for x in a.posonlyargs + a.args + a.kwonlyargs} | ({a.vararg.arg} if a.vararg else set()) | \
             ({a.kwarg.arg} if a.kwarg else set())
+        saved_l = getattr(self, "_list_params", set())
+        # parameters declared as lists / sequences (may be iterated more than once)
+        self._list_params = {x.arg for x in a.posonlyargs + a.args + a.kwonlyargs if x.annotation is not None and
+                             ast.unparse(x.annotation).replace("typing.", "").split("[")[0] in ("List", "list", "Sequence", "Tuple", "tuple")}
         try:
+            _expand_local_partials(node)
             return self.generic_visit(node)
         finally:
             self._params = saved
+            self._list_params = saved_l
 
     visit_AsyncFunctionDef = visit_FunctionDef
 
@@ -807,11 +988,12 @@ class _Desugar(ast.NodeTransformer):
         # index loops first: `i = a; while i < b: ...; i += 1` is the for loop over range(a, b) it spells out, and a for loop over
         # range(len(xs)) that only reads xs[i] is the loop over the elements
         pre: List[ast.stmt] = []
+        lens: dict = {}                     # n -> dump(xs) for `n = len(xs)` bound once in this block
         k = 0
         while k < len(stmts):
             s = stmts[k]
             if k + 1 < len(stmts):
-                fm = _first_match(s, stmts[k + 1])
+                fm = _first_match(s, stmts[k + 1]) or _first_match_list(s, stmts[k + 1])
                 if fm is not None:
                     pre.append(fm)
                     k += 2
@@ -822,13 +1004,29 @@ class _Desugar(ast.NodeTransformer):
                     pre.append(inplace_map(r, getattr(self, "_params", set())) or range_index_to_elements(r) or r)
                     k += 2
                     continue
+            if lens and not isinstance(s, ast.For):
+                # a statement that may change the length of a measured sequence (or rebinds it) ends what `n = len(xs)` says
+                for nm0, d0 in list(lens.items()):
+                    for y in ast.walk(s):
+                        if (isinstance(y, ast.Call) and isinstance(y.func, ast.Attribute) and ast.dump(y.func.value) == d0 and
+                                y.func.attr in ("append", "extend", "pop", "remove", "insert", "clear")) or \
+                                (isinstance(y, (ast.Name, ast.Attribute, ast.Subscript)) and isinstance(getattr(y, "ctx", None), (ast.Store, ast.Del))
+                                 and (ast.dump(y)[:40] == d0[:40] or (isinstance(y, ast.Subscript) and ast.dump(y.value) == d0 and isinstance(y.slice, ast.Slice)))):
+                            lens.pop(nm0, None)
+                            break
+            if isinstance(s, ast.Assign) and len(s.targets) == 1 and isinstance(s.targets[0], ast.Name) and isinstance(s.value, ast.Call) \
+                    and isinstance(s.value.func, ast.Name) and s.value.func.id == "len" and len(s.value.args) == 1 and not s.value.keywords:
+                nm = s.targets[0].id
+                stores = sum(1 for st0 in stmts for y in ast.walk(st0) if isinstance(y, ast.Name) and y.id == nm and isinstance(y.ctx, ast.Store))
+                if stores == 1:
+                    lens[nm] = ast.dump(s.value.args[0])
             if isinstance(s, ast.For):
                 m = inplace_map(s, getattr(self, "_params", set()))
                 if m is not None:
                     pre.append(m)
                     k += 1
                     continue
-                r = range_index_to_elements(s)
+                r = range_index_to_elements(s, lens)
                 if r is not None:
                     s = r
                 a = _any_loop(s)
@@ -836,7 +1034,7 @@ class _Desugar(ast.NodeTransformer):
                     s = a
             pre.append(s)
             k += 1
-        stmts = pre
+        stmts = _split_fused_accumulators(pre, getattr(self, "_list_params", set()))
         while i < len(stmts):
             s = stmts[i]
             # prefix scan by index:  i = 0; while i < len(xs) and P(xs[i]): i += 1
